@@ -42,6 +42,7 @@ let acc_of_string s =
   | ["exact"; t] -> AExact (ty_of_string t)
   | ["as"; t] -> AAs (aty_of_string t)
   | "ordef" :: t :: r -> AOrDef (ty_of_string t, res_of_strings r)
+  | ["jsonscan"] -> AJsonScan
   | _ -> failwith ("acc " ^ s)
 
 let show = function
@@ -53,6 +54,7 @@ let show = function
   | Common.Ok (RBool b) -> "ok bool " ^ (if b then "1" else "0")
   | Common.Ok (RParseFloat _) -> "ok parsefloat"
   | Common.Ok (RFmtFloat _) -> "ok fmtfloat"
+  | Common.Ok (RJsonScan _) -> "ok jsonscan"
   | Common.Err Common.EStored -> "err stored"
   | Common.Err _ -> "err other"
   | Common.Panic -> "panic"
